@@ -3,9 +3,23 @@
 Differential monitor: CPython's ast.literal_eval is the oracle for every string of
 the literal grammar (layout-randomised), an independent AST/token classifier
 decides which strings are in the grammar / near-misses / grey.
+
+The text reaches the real parser through every way gin accepts config text: a
+str, a list / tuple of str (also through parse_config_files_and_bindings), a
+text file object, a binary file object, a file on disk (parse_config_file,
+`include`), gin.config.parse_value; as a flat / scoped / block / macro
+statement, with and without neighbouring statements.
 """
 import ast
+import atexit
+import io
+import locale
+import os
+import random
+import shutil
+import tempfile
 import tokenize
+import warnings
 
 from vf import gen
 from vf.teq import teq
@@ -14,31 +28,95 @@ ID = 'C02'
 LEVEL = 'exploration'
 RULE = ('random literal values (scalars, str/bytes with prefixes/escapes/adjacent pieces, nested list/tuple/dict) '
         'rendered by a layout randomiser, plus named near-miss mutation operators; each text fed to the real parser '
-        'through parse_value / flat binding / scoped binding / block member / macro definition; oracle = '
-        'ast.literal_eval + typed equality for in-grammar text, SyntaxError|TokenError + no binding for near-misses. '
+        'through parse_value / flat binding / scoped binding / block member (first, second) / macro definition, alone or '
+        'between other statements, given as str / list of str / text or binary file object / file on disk / include; oracle = '
+        'ast.literal_eval + typed equality for in-grammar text, SyntaxError|TokenError + no binding for near-misses '
+        '(parse_value: only the value of a literal the text starts with may ever be returned). '
         'distinct = distinct (entry path, classifier class, set of layout features | mutation operator, value-kind set)')
 TIERS = {
     'quick': {'workers': 8, 'cases': 10000, 'timeout': 600},
     'thorough': {'workers': 16, 'cases': 60000, 'timeout': 3000},
 }
-ENTRIES = ['parse_value', 'flat', 'scoped', 'block', 'macro', 'flat-noeol']
-REQUIRED_BUCKETS = (['entry:' + e for e in ENTRIES] + ['class:in', 'class:near', 'class:invalid', 'class:grey'] +
-                    ['near-op:' + o for o in gen.NEAR_OPS] +
+# statement forms a text is embedded in (all given to gin.parse_config as one str) ...
+FORMS = ['flat', 'scoped', 'block', 'macro', 'flat-noeol', 'flat-followed', 'block-second']
+# ... and the other ways the same statement text can reach the parser (case['form'] says which statement form is used)
+PATH_ENTRIES = ['list', 'bindings-arg', 'stringio', 'binary-fileobj', 'file', 'include']
+PATH_GROUP = {'list': 'list', 'bindings-arg': 'list', 'stringio': 'filelike', 'binary-fileobj': 'binary',
+              'file': 'file', 'include': 'file'}
+ENTRIES = ['parse_value'] + FORMS + PATH_ENTRIES
+
+# literal shapes the shared renderer (vf/gen.py) never writes; every text is evaluated by CPython, never by a model
+SPECIALS = {
+    'esc-N': ["'\\N{LATIN SMALL LETTER A}'", '"\\N{SNOWMAN}x"', "'\\N{GREEK SMALL LETTER ALPHA}\\N{DIGIT ONE}'",
+              "u'a\\N{EM DASH}b'", "'''\\N{BLACK STAR}\n\\N{WHITE STAR}'''", "r'\\N{SNOWMAN}'", "'\\N{latin small letter e with acute}'"],
+    'str-backslash-nl': ["'ab\\\ncd'", '"\\\n"', "'''x\\\ny'''", "b'a\\\nb'", "r'a\\\nb'", "'a\\\n  b'", '"""p \\\n\\\nq"""',
+                         "rb'''k\\\n'''", "'one' 'two\\\nthree'"],
+    'esc-abfv': ["'\\a\\b\\f\\v'", "b'\\a\\b\\f\\v'", '"x\\vy"', "'\\b'", "'''\\f'''", "B'\\a'"],
+    'esc-unknown': ["'\\d'", "'\\ '", '"a\\qb"', "b'\\d'", "'\\8'", "'\\_'", "b'\\N{x}'", "b'\\u1234'", "'''\\w+\\.'''", "'\\%'", "'\\9x'"],
+    'esc-oct-short': ["'\\1'", "'\\12x'", "b'\\7'", "'\\0'", "'\\08'", "b'\\18'", "'\\400'"],
+    'int-prefix-upper': ['0O17', '0B11', '0XfF', '-0O7', '0b_1', '0x_f', '0o_7', '-0B0', '0XDEAD_beef', '- 0O10'],
+    'int-leading-zeros': ['00', '0_0', '000', '-00', '0_000', '- 0_0', '00_0'],
+    'float-overflow': ['1e400', '-1e400', '1E+999', '1e-400', '-1e-400', '1_0e4_0_0', '- 1e999'],
+    'imag-forms': ['.5j', '5.j', '1e3j', '1_0j', '-.5J', '1e400j', '0J', '-0j', '1.e-2j', '00j', '0_1j', '- 1_0.0_1e1J'],
+    'float-us-exp': ['1_0.5e1_0', '1_0.0_1', '1_000.', '1e0_1', '.0_5', '-1_0.e-0_1', '0_0.0', '1E1_0', '00.5', '0_9.', '09.5', '0e0'],
+    'big-number': ['123456789012345678901234567890123456789', '-0xFFFFFFFFFFFFFFFFFFFFFFFFF', '0.1000000000000000055511151231257827',
+                   '9007199254740993.0', '1' + '0' * 300, '0.' + '0' * 330 + '1', '-9223372036854775809', '0b' + '1' * 70,
+                   '179769313486231580793728971405303415079934132710037826936173778980444968292764750946649017977587207096330286416692887910946555547851940402630657488671505820681908902000708383676273854845817711531764475730270069855571366959622842914819860834936475292719074168444365510704342711559699508093042880177904174497792'],
+    'quote-corner': ["''''a'''", '"""a\\""""', "'''a''b'''", "'\"'", '"\'"', "''' '' '''", '"" ""', "'''\n'''", "r'\\''", "r'\\\\'",
+                     'r"\\""', "b''", "Rb'\\n'", "u''", "bR\"\"\"\\\"\"\"\"", "'#'", "'a # not a comment'", "'''a\n# b\n'''"],
+}
+SPECIAL_LABELS = sorted(SPECIALS) + ['deep-nesting', 'triple-ws-nl', 'minus-split']
+SPECIAL_WEIGHTED = SPECIAL_LABELS + ['triple-ws-nl'] * 3 + ['minus-split', 'deep-nesting']
+SPECIAL_EMBED = ['%s', '%s', '%s', '[%s]', '(%s,)', '[0, %s, None]', '{%s: %t}', "{'k': %s}", '[\n  %s,\n]', '(1, [%s])', '((%s))',
+                 '{%s: [%t, %u]}', '[%s, %t]', '(%s\n ,\n %t)']
+RELAYOUT_LABELS = ['minus-nl', 'minus-comment', 'minus-backslash', 'backslash-in-bracket']
+
+# near-miss operators beyond gen.NEAR_OPS (they need line breaks, which gen.near_miss never writes)
+EXTRA_NEAR_OPS = ['missing-comma-nl', 'minus-nonnumber-nl']
+# a near-miss placed deep inside / in key position of an otherwise valid container; line breaks only BEFORE the near-miss,
+# so that an early closing bracket in it can never put a line break (= end of statement) outside all brackets
+DEEP_TEMPLATES = ['[[%s]]', '[1, [2, %s]]', "{'a': [%s]}", "({'k': (%s,)},)", '[[[%s, 1]]]', '[\n  [1,\n   %s]]',
+                  "{'a': {'b': %s}}", '[(%s)]', "[{'k': [0, (%s)]}]", '((%s, 2), 3)', '[[\n# c\n %s], []]', '[0, (1, {2: %s})]']
+KEY_TEMPLATES = ['{%s: 1}', '[{%s: 1}]', '{1: 2, %s: 3}', "{'a': {%s: None}}", '{\n %s: 1}', '({%s: []},)', '{(%s, 1): 2}', '{(%s): 0}']
+
+try:
+  _LOCALE_IS_UNICODE = '\xe9\u2603\U0001f600'.encode(locale.getpreferredencoding(False)) is not None
+except (UnicodeError, LookupError):
+  _LOCALE_IS_UNICODE = False  # open() cannot read such a file back: non-ASCII texts go through the binary file object instead
+REQUIRED_BUCKETS = (['entry:' + e for e in ENTRIES] + ['entry:parse_value-near', 'parse_value-near:must-reject', 'parse_value-near:prefix-exempt'] +
+                    ['class:in', 'class:near', 'class:invalid', 'class:grey'] +
+                    ['near-op:' + o for o in gen.NEAR_OPS + EXTRA_NEAR_OPS] +
+                    ['must-reject:' + o for o in EXTRA_NEAR_OPS + ['embed-deep', 'embed-dict-key']] +
                     ['layout:' + l for l in ['adjacent-empty-piece', 'adjacent-2', 'adjacent-3', 'prefix-raw', 'prefix-u',
                                              'bytes', 'quote-tsq', 'quote-tdq', 'quote-sq', 'quote-dq', 'esc-hex', 'esc-oct',
                                              'esc-u', 'esc-named', 'int-hex', 'int-oct', 'int-bin', 'int-us', 'float-exp',
                                              'imag', 'minus', 'one-tuple', 'trailing-comma', 'nl-in-bracket',
                                              'comment-in-bracket', 'backslash-cont', 'parenthesised', 'parenthesised-nested', 'empty-list',
-                                             'empty-tuple', 'empty-dict', 'adjacent-nosep', 'literal-newline-in-triple', 'raw-control-char', 'dict-duplicate-key']])
+                                             'empty-tuple', 'empty-dict', 'adjacent-nosep', 'literal-newline-in-triple', 'raw-control-char', 'dict-duplicate-key'] +
+                                            SPECIAL_LABELS + RELAYOUT_LABELS] +
+                    ['path-feature:%s:triple-ws-nl' % g for g in ['list', 'filelike', 'binary', 'file']] +
+                    ['path-feature:%s:non-ascii' % g for g in ['list', 'filelike', 'binary'] + ['file'] * _LOCALE_IS_UNICODE] +
+                    ['neighbours-checked:' + f for f in ['flat-noeol', 'flat-followed', 'block-second']])
 ORACLE_COUNTERS = ['oracle_evals', 'accepted_equal', 'rejected_as_required']
 ASSUMPTIONS = ['ast.literal_eval of CPython is the reference for the value of a literal',
-               'grey strings (set displays, Ellipsis, unary +, -(1), bare tuples, real+imag) may be rejected or accepted-equal']
+               'grey strings (set displays, Ellipsis, unary +, -(1), bare tuples, real+imag) may be rejected or accepted-equal',
+               'gin.config.parse_value reads ONE value: text after a complete value is not looked at there (DESIGN 8.3); '
+               'it must still never return anything but the value of a literal that the text starts with',
+               'a binary file object holds UTF-8 (what CPython assumes for source bytes); a file on disk is written in the '
+               'locale encoding that the default reader open() decodes with']
+
+_SKIP_TOKENS = (tokenize.NL, tokenize.NEWLINE, tokenize.COMMENT, tokenize.INDENT, tokenize.DEDENT, tokenize.ENDMARKER)
+_STATE = {'tmp': None}
 
 
 def setup(ctx):
   import gin
+  # invalid escape sequences ('\\d') are literals that come with a SyntaxWarning: not printed 100k times (default action
+  # is to print, never to raise, so this does not change what gin or the reference do)
+  warnings.filterwarnings('ignore', category=SyntaxWarning)
+  warnings.filterwarnings('ignore', category=DeprecationWarning, message='invalid .*escape')
 
-  def C02P(p=None, q=None):
+  def C02P(p=None, q=None, r=None):
     return p
 
   def REF():
@@ -48,46 +126,383 @@ def setup(ctx):
   gin.external_configurable(REF, 'REF', module='vf.c02')
 
 
+def _tmpdir():
+  if _STATE['tmp'] is None:
+    # (a memory file system where there is one: creating files under /tmp costs ~1 ms each on some hosts)
+    shm = '/dev/shm' if os.path.isdir('/dev/shm') and os.access('/dev/shm', os.W_OK | os.X_OK) else None
+    _STATE['tmp'] = tempfile.mkdtemp(prefix='vf-c02-', dir=shm)
+    atexit.register(shutil.rmtree, _STATE['tmp'], True)
+  return _STATE['tmp']
+
+
+def finish(ctx):
+  if _STATE['tmp'] is not None:
+    shutil.rmtree(_STATE['tmp'], ignore_errors=True)
+    _STATE['tmp'] = None
+
+
+# ---------------------------------------------------------------------------
+# generator
+
+
+def _tokens(text):
+  """([(type, string, start, end)], complete): the non-layout tokens with absolute character offsets."""
+  offs = [0]
+  for l in text.split('\n'):
+    offs.append(offs[-1] + len(l) + 1)
+  out, complete = [], True
+  try:
+    for t in tokenize.generate_tokens(io.StringIO(text).readline):
+      if t.type in _SKIP_TOKENS:
+        continue
+      a, b = offs[t.start[0] - 1] + t.start[1], offs[t.end[0] - 1] + t.end[1]
+      if text[a:b] != t.string:
+        return out, False  # offsets not trustworthy for this text: use only what was mapped correctly
+      out.append((t.type, t.string, a, b))
+  except (tokenize.TokenError, SyntaxError, IndentationError, IndexError):
+    complete = False
+  return out, complete
+
+
+def _py_value(text):
+  """(True, value) if CPython evaluates the text as a literal."""
+  try:
+    return True, ast.literal_eval(text.strip())
+  except Exception:  # pylint: disable=broad-except
+    return False, None
+
+
+def _same_literal(new, old):
+  if gen.classify(new) != 'in':
+    return False
+  ok1, v1 = _py_value(new)
+  ok2, v2 = _py_value(old)
+  return ok1 and ok2 and teq(v1, v2)
+
+
+def _relayout(rng, text, used):
+  """Put a line break / comment / backslash continuation between a minus and its number (or, failing that, a
+  backslash continuation between two tokens inside brackets).  CPython must evaluate the result to the same value."""
+  toks, ok = _tokens(text)
+  if not ok or len(toks) < 2:
+    return text
+  depth, minus, other = 0, [], []
+  for i, (ty, s, _, b) in enumerate(toks[:-1]):
+    if ty == tokenize.OP and s in ('(', '[', '{'):
+      depth += 1
+    elif ty == tokenize.OP and s in (')', ']', '}'):
+      depth -= 1
+    if ty == tokenize.OP and s == '-' and toks[i + 1][0] == tokenize.NUMBER:
+      minus.append((b, depth))
+    elif depth > 0:
+      other.append((b, depth))
+  if minus:
+    at, d = rng.choice(minus)
+    kind = rng.choice(['minus-nl', 'minus-comment', 'minus-backslash']) if d > 0 else 'minus-backslash'
+  elif other:
+    at, d = rng.choice(other)
+    kind = 'backslash-in-bracket'
+  else:
+    return text
+  pad = ' ' * rng.randrange(0, 5)
+  if kind == 'minus-nl':
+    ins = rng.choice(['\n', ' \n', '\n\n']) + pad
+  elif kind == 'minus-comment':
+    ins = rng.choice(['# neg\n', '  # c [(\n', ' #\n']) + pad
+  else:
+    ins = rng.choice([' \\\n', '\\\n']) + pad
+  new = text[:at] + ins + text[at:]
+  if not _same_literal(new, text):
+    return text
+  used.add(kind)
+  return new
+
+
+def _gen_deep(rng):
+  """A scalar under 30..60 levels of list / tuple / dict / redundant parentheses."""
+  text = rng.choice(['1', "'x'", 'None', '-2.5', '[]', '()', '{}', "b'\\x00'", 'True'])
+  hashable = text not in ('[]', '{}')
+  for _ in range(rng.randrange(30, 61)):
+    nl = rng.choice(['', '', '', '', '\n', ' ', '\n  '])
+    k = rng.randrange(9)
+    if k == 0:
+      text, hashable = '[' + nl + text + ']', False
+    elif k == 1:
+      text, hashable = '[' + text + ',' + nl + ']', False
+    elif k == 2:
+      text = '(' + text + nl + ',)'
+    elif k == 3:
+      text = '(' + nl + text + ')'
+    elif k == 4 and hashable:
+      text, hashable = '{' + text + ':' + nl + ' 0}', False
+    elif k == 5:
+      text, hashable = '{1: ' + nl + text + '}', False
+    elif k == 6:
+      text, hashable = '[0, ' + text + nl + ']', False
+    elif k == 7:
+      text = '(' + text + ', None)'
+    else:
+      text, hashable = '[' + text + ']', False
+  return text
+
+
+def _gen_triple_ws(rng):
+  """A triple-quoted str/bytes literal whose physical lines end and/or start with blanks."""
+  prefix = rng.choice(['', '', 'r', 'b', 'u', 'rb', 'R'])
+  q = rng.choice(["'''", '"""'])
+  alphabet = ['a', 'b', 'Z', '0', '.', ',', '=', '#', ' ', '[', '(']
+  if 'b' not in prefix.lower():
+    alphabet += ['\xe9', '\u2603']
+  lines = []
+  for _ in range(rng.randrange(2, 5)):
+    core = ''.join(rng.choice(alphabet) for _ in range(rng.randrange(0, 5)))
+    lines.append(rng.choice(['', ' ', '  ', '\t', '   ']) + core + rng.choice([' ', '  ', '\t', ' \t ', '']))
+  body = '\n'.join(lines)
+  if not any((a.endswith((' ', '\t')) or b.startswith((' ', '\t'))) for a, b in zip(lines, lines[1:])):
+    body = lines[0] + '  \n  ' + '\n'.join(lines[1:])
+  return prefix + q + body + q
+
+
+def _gen_minus_split(rng, used):
+  items = [rng.choice(['-1', '- 2.5', '-3j', '-0.0', '-0x1F', '-1_000', '-.5', '-1e-3', '- 0', '-10000000000000000000000'])
+           for _ in range(rng.randrange(1, 4))]
+  text = rng.choice(['[%s]', '(%s,)', '{0: [%s]}', '[[%s], 1]', '{%s: None}', '((%s))']).replace('%s', ', '.join(items))
+  if text.startswith('{-') and len(items) > 1:
+    text = '[' + ', '.join(items) + ']'
+  for _ in range(rng.randrange(1, 3)):
+    text = _relayout(rng, text, used)
+  return text
+
+
+def _gen_special(rng, label):
+  """(text, used-labels).  The text is kept only if CPython evaluates it as a literal of the property's grammar."""
+  used = {label}
+  if label == 'deep-nesting':
+    text = _gen_deep(rng)
+  elif label == 'triple-ws-nl':
+    text = _gen_triple_ws(rng)
+    if rng.random() < 0.4:
+      text = rng.choice(['[%s]', "['x', %s]", '{%s: 1}', '(%s, )', "'' %s"]).replace('%s', text)
+  elif label == 'minus-split':
+    text = _gen_minus_split(rng, used)
+  else:
+    pool = SPECIALS[label]
+    text = rng.choice(SPECIAL_EMBED).replace('%s', rng.choice(pool))
+    for slot in ('%t', '%u'):
+      if slot in text:
+        other = rng.choice(SPECIAL_LABELS[:len(SPECIALS)])
+        used.add(other)
+        text = text.replace(slot, rng.choice(SPECIALS[other]))
+  if gen.classify(text) != 'in' or not _py_value(text)[0]:
+    return None, None
+  return text, used
+
+
+def _single_line_literal(rng, depth):
+  text, _ = gen.render_value(rng, gen.gen_value(rng, depth=depth), wild=0.2, multiline=False)
+  return '1' if '\n' in text else text
+
+
+def _extra_near(rng, op):
+  if op == 'missing-comma-nl':
+    brk = rng.choice(['\n', '\n ', '\n    ', '  # c\n ', ' \n\n'])
+    kind = rng.randrange(3)
+    if kind < 2:
+      n = rng.randrange(2, 5)
+      items = [_single_line_literal(rng, rng.choice([0, 0, 1])) for _ in range(n)]
+      miss = rng.randrange(n - 1)
+      body = ''
+      for i, it in enumerate(items):
+        body += it
+        if i < n - 1:
+          body += brk if i == miss else ', '
+      text = ('[%s]' if kind == 0 else '(%s)').replace('%s', body)
+    else:
+      keys = rng.sample(["'a'", '1', 'None', "b'k'", '(1, 2)', '-2', "'b'", '2.5', 'True'], 3)
+      n = rng.randrange(2, 4)
+      miss = rng.randrange(n - 1)
+      body = ''
+      for i in range(n):
+        body += keys[i] + ': ' + _single_line_literal(rng, rng.choice([0, 0, 1]))
+        if i < n - 1:
+          body += brk if i == miss else ', '
+      text = '{' + body + '}'
+    if rng.random() < 0.3:
+      text = rng.choice(DEEP_TEMPLATES).replace('%s', text)
+    return text
+  if op == 'minus-nonnumber-nl':
+    core = rng.choice(['-\n ', '- # c\n ', '- \\\n', '-\n\n', '-\\\n ']) + rng.choice(
+        ['None', "'a'", '[1]', '(1, 2)', '{}', "b'x'", 'x', 'True', 'False', "''", '@REF()', '%MACRO', 'inf'])
+    if '\\\n' in core and rng.random() < 0.3:
+      return core  # a backslash continuation needs no bracket
+    return rng.choice(['[%s]', '[1, %s]', "{'k': %s}", '(%s,)', '{%s: 1}', '[[%s]]']).replace('%s', core)
+  raise ValueError(op)
+
+
 def iter_cases(ctx, rng, n):
+  n_old = len(gen.NEAR_OPS)
+  n_special = 0
   for i in range(n):
     entry = ENTRIES[i % len(ENTRIES)]
+    case = {'entry': entry, 'form': None, 'variant': rng.randrange(1 << 30), 'op': None, 'embed': None, 'used': [], 'kinds': []}
+    if entry in PATH_ENTRIES:
+      case['form'] = rng.choice(FORMS)
     r = rng.random()
-    if r < 0.58:
+    if r < 0.44:
       v = gen.gen_value(rng, depth=rng.choice([0, 1, 2, 3, 4]))
       wild = rng.choice([0.0, 0.3, 0.6, 0.9])
       text, used = gen.render_value(rng, v, wild=wild, multiline=True, dup_keys=True)
-      yield {'entry': entry, 'text': text, 'op': None, 'used': sorted(used), 'kinds': sorted(gen.kinds_in(v))}
+      if rng.random() < 0.15:
+        text = _relayout(rng, text, used)
+      case.update(text=text, used=sorted(used), kinds=sorted(gen.kinds_in(v)))
+    elif r < 0.58:
+      n_special += 1
+      label = SPECIAL_WEIGHTED[n_special % len(SPECIAL_WEIGHTED)] if n_special % 2 else rng.choice(SPECIAL_WEIGHTED)
+      text, used = _gen_special(rng, label)
+      if text is None:
+        ctx.count('generator_skips')
+        text, used = '1', set()
+      case.update(text=text, used=sorted(used), kinds=['special'])
+    elif r < 0.9:
+      base = _single_line_literal(rng, rng.choice([0, 0, 1]))
+      text, op = gen.near_miss(rng, base, gen.NEAR_OPS[i % n_old] if r < 0.86 else None)
+      e = rng.random()
+      if e < 0.15 and '\n' not in text:
+        text, case['embed'] = rng.choice(DEEP_TEMPLATES).replace('%s', text), 'deep'
+      elif e < 0.25 and '\n' not in text:
+        text, case['embed'] = rng.choice(KEY_TEMPLATES).replace('%s', text), 'dict-key'
+      case.update(text=text, op=op)
     else:
-      base_v = gen.gen_value(rng, depth=rng.choice([0, 0, 1]))
-      base, _ = gen.render_value(rng, base_v, wild=0.2, multiline=False)
-      if '\n' in base:
-        base = '1'
-      text, op = gen.near_miss(rng, base, gen.NEAR_OPS[i % len(gen.NEAR_OPS)] if r < 0.9 else None)
-      if entry == 'parse_value':
-        entry = 'flat'
-      yield {'entry': entry, 'text': text, 'op': op, 'used': [], 'kinds': []}
+      op = EXTRA_NEAR_OPS[i % len(EXTRA_NEAR_OPS)] if rng.random() < 0.5 else rng.choice(EXTRA_NEAR_OPS)
+      case.update(text=_extra_near(rng, op), op=op)
+    yield case
 
 
-def _statement(entry, text):
-  if entry == 'flat':
-    return 'C02P.p = ' + text + '\n', 'C02P.p'
-  if entry == 'flat-noeol':
-    return 'C02P.q = 0\nC02P.p =' + text, 'C02P.p'
-  if entry == 'scoped':
-    return 's1/s2/vf.c02.C02P.p\t=\t' + text + '  # trailing comment\n', 's1/s2/C02P.p'
-  if entry == 'block':
-    return 's1/C02P:\n  # block\n  p = ' + text + '\n', 's1/C02P.p'
-  if entry == 'macro':
-    return 'C02M = ' + text + '\n', '%C02M'
-  raise ValueError(entry)
+# ---------------------------------------------------------------------------
+# driving the real parser
 
 
-def classify_violation(case, what):
+def _statement(form, text):
+  """(config text, key to query, {key: value} of the neighbouring statements)."""
+  if form == 'flat':
+    return 'C02P.p = ' + text + '\n', 'C02P.p', {}
+  if form == 'flat-noeol':
+    return 'C02P.q = 0\nC02P.p =' + text, 'C02P.p', {'C02P.q': 0}
+  if form == 'scoped':
+    return 's1/s2/vf.c02.C02P.p\t=\t' + text + '  # trailing comment\n', 's1/s2/C02P.p', {}
+  if form == 'block':
+    return 's1/C02P:\n  # block\n  p = ' + text + '\n', 's1/C02P.p', {}
+  if form == 'macro':
+    return 'C02M = ' + text + '\n', '%C02M', {}
+  if form == 'flat-followed':
+    return 'C02P.p = ' + text + '\nC02P.q = -77\ns9/C02P.r = (79)\n', 'C02P.p', {'C02P.q': -77, 's9/C02P.r': 79}
+  if form == 'block-second':
+    return 's1/C02P:\n  q = (76,)\n  p = ' + text + "\n  r = 'a' 'b'\n", 's1/C02P.p', {'s1/C02P.q': (76,), 's1/C02P.r': 'ab'}
+  raise ValueError(form)
+
+
+def _split_lines(stmt, variant):
+  """A list (or tuple) of strings whose '\\n'.join is exactly `stmt`; elements may themselves span lines."""
+  r = random.Random(variant)
+  parts = stmt.split('\n')
+  out = [parts[0]]
+  p_merge = r.choice([0.0, 0.0, 0.3, 0.6])
+  for part in parts[1:]:
+    if r.random() < p_merge:
+      out[-1] += '\n' + part
+    else:
+      out.append(part)
+  assert '\n'.join(out) == stmt
+  return tuple(out) if variant % 3 == 0 else out
+
+
+def _effective_entry(case, cls, stmt_text):
+  """Some (entry, text) pairs cannot be driven faithfully; route them to an equivalent entry (decided before any bucket)."""
+  entry = case['entry']
+  if entry in ('file', 'include') and not (stmt_text.isascii() and '\r' not in stmt_text):
+    enc = locale.getpreferredencoding(False)
+    try:
+      same = stmt_text.encode(enc).decode(enc) == stmt_text
+    except (UnicodeError, LookupError):
+      same = False
+    if not same or '\r' in stmt_text:  # open() would hand gin another text (universal newlines / undecodable)
+      entry = 'binary-fileobj'
+  if entry == 'binary-fileobj' and not stmt_text.isascii():
+    try:
+      stmt_text.encode('utf8')
+    except UnicodeError:
+      entry = 'stringio'
+  return entry
+
+
+def _write(name, data, mode, **kw):
+  path = os.path.join(_tmpdir(), name)
+  with open(path, mode, **kw) as f:
+    f.write(data)
+  return path
+
+
+def _drive(case, entry, text):
+  import gin
+  from gin import config as gc
+  if entry in ('parse_value', 'parse_value-near'):
+    return gc.parse_value(text.strip()), {}
+  stmt, qkey, others = _statement(case.get('form') or entry, text)
+  variant = case.get('variant') or 0
+  if entry in FORMS:
+    gin.parse_config(stmt)
+  elif entry == 'list':
+    gin.parse_config(_split_lines(stmt, variant))
+  elif entry == 'bindings-arg':
+    gin.parse_config_files_and_bindings(None, _split_lines(stmt, variant), finalize_config=False)
+  elif entry == 'stringio':
+    gin.parse_config(io.StringIO(stmt))
+  elif entry == 'binary-fileobj':
+    if variant % 2:
+      gin.parse_config(io.BytesIO(stmt.encode('utf8')))
+    else:
+      with open(_write('c02b.gin', stmt.encode('utf8'), 'wb'), 'rb') as f:
+        gin.parse_config(f)
+  elif entry == 'file':
+    path = _write('c02f.gin', stmt, 'w', encoding=locale.getpreferredencoding(False), newline='')
+    if variant % 2:
+      gin.parse_config_file(path)
+    else:
+      gin.parse_config_files_and_bindings([path], None, finalize_config=False)
+  elif entry == 'include':
+    path = _write('c02i.gin', stmt, 'w', encoding=locale.getpreferredencoding(False), newline='')
+    # (C02P.r without scope is not used by any statement form)
+    gin.parse_config(["include '%s'" % path, 'C02P.r = 74'] if variant % 2 else "include '%s'\n" % path)
+  else:
+    raise ValueError(entry)
+  got = gin.query_parameter(qkey)
+  return got, {k: gin.query_parameter(k) for k in others}
+
+
+def _prefix_values(src):
+  """Values of every in-grammar (or grey) literal that `src` STARTS with, cut at token boundaries.
+
+  parse_value() reads one value and does not look at what follows, so for text outside the grammar the only values
+  it may return are these; if there is none, it has to raise."""
+  toks, _ = _tokens(src)
+  vals = []
+  for _, _, _, end in toks:
+    prefix = src[:end]
+    if gen.classify(prefix) in ('in', 'grey'):
+      ok, v = _py_value(prefix)
+      if ok:
+        vals.append(v)
+  return vals
+
+
+def classify_violation(case, what, entry=None):
   """Mechanism keys (for known_findings.json): keyed by construct, never by value."""
   used = set(case.get('used') or [])
   text = case['text']
   if what in ('rejected-valid', 'wrong-value') and (used & {'adjacent-2', 'adjacent-3', 'adjacent-4'}):
     return what + ':adjacent-string-pieces'
+  if what in ('rejected-valid', 'wrong-value') and PATH_GROUP.get(entry):
+    return what + ':via-' + PATH_GROUP[entry]
   if what == 'accepted-near-miss' and case.get('op') == 'minus-nonnumber' and ('@' in text or '%' in text):
     return what + ':minus-before-reference-or-macro'
   if what == 'accepted-near-miss':
@@ -101,52 +516,82 @@ def run_case(ctx, case):
   text, entry = case['text'], case['entry']
   cls = gen.classify(text)
   if entry == 'parse_value' and cls != 'in':
-    entry = 'flat'  # parse_value() reads one value and, by design, does not look at what follows
+    # parse_value() reads one value and, by design, does not look at what follows: decided by the prefix oracle below
+    # (references and macros are values too, but not literals: texts containing them go through a statement instead)
+    entry = 'flat' if ('@' in text or '%' in text) else 'parse_value-near'
+  if entry in PATH_ENTRIES:
+    entry = _effective_entry(case, cls, _statement(case.get('form') or 'flat', text)[0])
+  form = None if entry in ('parse_value', 'parse_value-near') else (case.get('form') or entry)
+  used = case.get('used') or []
   ctx.bucket('entry:' + entry)
   ctx.bucket('class:' + cls)
   if case['op']:
     ctx.bucket('near-op:' + case['op'])
-  for u in case['used']:
+  for u in used:
     ctx.bucket('layout:' + u)
-  ctx.fp(entry, cls, case['op'], tuple(case['used']), tuple(case['kinds']))
-  ctx.sample({'entry': entry, 'class': cls, 'op': case['op'], 'text': text[:200]}, cap=6)
+  group = PATH_GROUP.get(entry)
+  if group and cls == 'in':
+    if 'triple-ws-nl' in used:
+      ctx.bucket('path-feature:%s:triple-ws-nl' % group)
+    if not text.isascii():
+      ctx.bucket('path-feature:%s:non-ascii' % group)
+  if cls in ('near', 'invalid'):
+    if case.get('op') in EXTRA_NEAR_OPS:
+      ctx.bucket('must-reject:' + case['op'])
+    if case.get('embed'):
+      ctx.bucket('must-reject:embed-' + case['embed'])
+  ctx.fp(entry, form, cls, case['op'], case.get('embed'), tuple(used), tuple(case['kinds']))
+  ctx.sample({'entry': entry, 'form': form, 'class': cls, 'op': case['op'], 'text': text[:200]}, cap=6)
 
   expected = None
   if cls in ('in', 'grey'):
-    try:
-      expected = ast.literal_eval(text.strip())
-      has_expected = True
-    except Exception:  # pylint: disable=broad-except
-      has_expected = False  # Python cannot evaluate it as a literal (e.g. set of unhashables)
+    has_expected, expected = _py_value(text)  # False: Python cannot evaluate it as a literal (e.g. set of unhashables)
   else:
     has_expected = False
 
   gin.clear_config()
-  exc = None
+  exc, got, others = None, None, {}
   try:
-    if entry == 'parse_value':
-      got = gc.parse_value(text.strip())
-    else:
-      stmt, qkey = _statement(entry, text)
-      gin.parse_config(stmt)
-      got = gin.query_parameter(qkey)
+    got, others = _drive(case, entry, text)
   except BaseException as e:  # pylint: disable=broad-except
     exc = e
+
+  if entry == 'parse_value-near':
+    allowed = _prefix_values(text.strip())
+    ctx.bucket('parse_value-near:' + ('prefix-exempt' if allowed else 'must-reject'))
+    if exc is None:
+      ctx.check(any(teq(got, v) for v in allowed), 'parse-value-returned-non-literal:' + str(case.get('op') or cls),
+                'parse_value(%r) returned %r, which is not the value of any literal the text starts with (%s)' %
+                (text, got, ', '.join(repr(v) for v in allowed[:4]) or 'there is none: it had to raise'),
+                {'text': text, 'gin': repr(got)})
+      return
+    if ctx.check(isinstance(exc, (SyntaxError, tokenize.TokenError)), 'wrong-exception-type',
+                 'parse_value(%r) raised %s (%s), not a syntax/tokenizer error' % (text, type(exc).__name__, str(exc)[:300])):
+      if not allowed:
+        ctx.count('rejected_as_required')
+    return
 
   if cls == 'in':
     if not has_expected:
       ctx.count('generator_skips')
       return
     if exc is not None:
-      ctx.check(False, classify_violation(case, 'rejected-valid'),
-                'in-grammar literal rejected: %r -> %s: %s' % (text, type(exc).__name__, str(exc)[:200]),
+      ctx.check(False, classify_violation(case, 'rejected-valid', entry),
+                'in-grammar literal rejected (entry %s, form %s): %r -> %s: %s' % (entry, form, text, type(exc).__name__, str(exc)[:200]),
                 {'text': text, 'python_value': repr(expected)})
       return
-    ok = ctx.check(teq(got, expected), classify_violation(case, 'wrong-value'),
-                   'literal %r parsed to %r but Python evaluates it to %r' % (text, got, expected),
+    ok = ctx.check(teq(got, expected), classify_violation(case, 'wrong-value', entry),
+                   'literal %r parsed to %r but Python evaluates it to %r (entry %s, form %s)' % (text, got, expected, entry, form),
                    {'text': text, 'gin': repr(got), 'python': repr(expected)})
     if ok:
       ctx.count('accepted_equal')
+    if others:
+      # the statements around the literal are literals too (hand-evaluated above): each must still hold its own value
+      _, _, want = _statement(form, text)
+      ctx.bucket('neighbours-checked:' + form)
+      ctx.check(all(teq(others[k], want[k]) for k in want), 'neighbour-statement-changed',
+                'statements next to the literal %r (form %s, entry %s) now hold %r, written as %r' % (text, form, entry, others, want),
+                {'text': text})
     return
 
   if cls == 'grey':
@@ -162,17 +607,16 @@ def run_case(ctx, case):
   # near / invalid: must be rejected with a syntax or tokenizer error, and nothing bound
   if exc is None:
     ctx.check(False, classify_violation(case, 'accepted-near-miss'),
-              'text outside the literal grammar accepted: %r -> %r (entry %s)' % (text, got, entry),
+              'text outside the literal grammar accepted: %r -> %r (entry %s, form %s)' % (text, got, entry, form),
               {'text': text, 'gin': repr(got)})
     return
   if not ctx.check(isinstance(exc, (SyntaxError, tokenize.TokenError)), 'wrong-exception-type',
                    'text %r raised %s (%s), not a syntax/tokenizer error' % (text, type(exc).__name__, str(exc)[:300])):
     return
   ctx.count('rejected_as_required')
-  if entry != 'parse_value':
-    bound = {k: v for k, v in gc._CONFIG.items() if 'p' in v or 'value' in v}
-    ctx.check(not bound, 'binding-left-after-rejection',
-              'rejected statement %r left a binding: %r' % (text, bound))
+  bound = {k: v for k, v in gc._CONFIG.items() if 'p' in v or 'value' in v}
+  ctx.check(not bound, 'binding-left-after-rejection',
+            'rejected statement %r left a binding: %r' % (text, bound))
 
 LEVEL_TEXT = ('Differential runtime monitor: ~28k (quick) / ~1.3M (thorough) generated literal texts and near-misses per run are '
               'fed to the real parser through five entry paths and compared with CPython (ast.literal_eval, typed equality); '
